@@ -335,7 +335,6 @@ def run_polars(rep, rng, n):
         if not D["cols"]:
             continue
         S["index"] = None
-        S["ordered"] = False
         S["unique"] = []
         for s in S["columns"]:
             s["unique"] = False
@@ -356,7 +355,7 @@ def run_polars(rep, rng, n):
                 s["default"] = None
         try:
             df = PA.frame_of(D)
-            schema = PA.schema_of(S, with_defaults=True)
+            schema = PA.schema_of(S, with_defaults=True, coerce=S["coerce"], add_missing_columns=S["addMissing"])
             stripped = PA.schema_of(strip(S))
         except Exception:  # noqa: BLE001
             rep.count("polars:unbuildable")
